@@ -25,7 +25,36 @@ func init() {
 	extraCommands["crash"] = cmdCrash
 }
 
+var crashBig bool
+
+// crashBigHistory: one collection of 700 documents; an index is created over it, dropped, created
+// again, a bulk update rewrites the indexed field, the collection is dropped.  Every one of these
+// operations touches thousands of keys in one transaction: the kill lands deep inside them.
+func crashBigHistory(seed int64) ([]E, *Universe) {
+	p := &Profile{Name: "crash", NumTable: "general", TimeTable: "general", Colls: 1, MaxDocs: 16, Indexes: true, NoGenIds: true, W: weights(nil)}
+	g := NewGen(seed, p)
+	c := "big"
+	var docs []interface{}
+	for i := 0; i < 700; i++ {
+		docs = append(docs, AObj("_id", AStr(bulkId(i)), "x", ANum(g.smallN[i%len(g.smallN)], "i")))
+	}
+	where := []interface{}{[]interface{}{"where", []interface{}{"un", "gte", B("x"), []interface{}{"lit", ANum(g.smallN[1], "i")}}}}
+	evs := []E{{"op": "CreateCollection", "c": c}, {"op": "Insert", "c": c, "docs": docs},
+		{"op": "CreateIndex", "c": c, "f": B("x")},
+		{"op": "DropIndex", "c": c, "f": B("x")},
+		{"op": "CreateIndex", "c": c, "f": B("x")},
+		{"op": "UpdateFunc", "c": c, "q": where, "upd": []interface{}{"set", B("x"), ANum(g.smallN[0], "i")}},
+		{"op": "DropIndex", "c": c, "f": B("x")},
+		{"op": "CreateIndex", "c": c, "f": B("x")},
+		{"op": "Delete", "c": c, "q": where},
+		{"op": "DropCollection", "c": c}}
+	return evs, g.U
+}
+
 func crashHistory(seed int64) ([]E, *Universe) {
+	if crashBig {
+		return crashBigHistory(seed)
+	}
 	p := &Profile{Name: "crash", NumTable: "general", TimeTable: "general", Colls: 2, MaxDocs: 16, Indexes: true, Invalid: 0.1,
 		NoGenIds: true, W: map[string]int{"Insert": 30, "ReplaceById": 6, "UpdateById": 10, "Update": 8, "UpdateFunc": 8, "Delete": 4,
 			"DeleteById": 6, "CreateIndex": 6, "DropIndex": 3, "CreateCollection": 3, "DropCollection": 2}}
@@ -56,6 +85,10 @@ func crashHistory(seed int64) ([]E, *Universe) {
 		if i > 8 && i%7 == 0 {
 			out = append(out, E{"op": "CreateByQuery", "name": fmt.Sprintf("byq%d", i), "c": g.colls[(i/7)%len(g.colls)], "q": []interface{}{}})
 		}
+		if i > 8 && i%9 == 0 { // an index created and dropped again over whatever the collection holds by now
+			c := g.colls[(i/9)%len(g.colls)]
+			out = append(out, E{"op": "CreateIndex", "c": c, "f": B("k")}, E{"op": "DropIndex", "c": c, "f": B("k")})
+		}
 	}
 	return out, g.U
 }
@@ -65,7 +98,9 @@ func cmdCrashChild(args []string) {
 	dir := fs.String("dir", "", "database directory")
 	be := fs.String("backend", "bolt", "bolt|badger")
 	seed := fs.Int64("seed", 1, "seed")
+	big := fs.Bool("big", false, "the history over one large collection")
 	fs.Parse(args)
+	crashBig = *big
 	evs, u := crashHistory(*seed)
 	b := &Backend{Name: *be, dir: *dir}
 	if err := b.reopen(); err != nil {
@@ -93,7 +128,9 @@ func cmdCrash(args []string) {
 	out := fs.String("out", "crash.ndjson", "output")
 	statsOut := fs.String("stats", "", "stats json")
 	par := fs.Int("par", 6, "parallel")
+	big := fs.Bool("big", false, "kill inside operations over one large collection")
 	fs.Parse(args)
+	crashBig = *big
 	if *work == "" {
 		*work = scratchBase()
 	}
@@ -152,12 +189,39 @@ func runKill(seed int64, be, work string) ([][]byte, string) {
 	r := rand.New(rand.NewSource(seed ^ 0x5eed))
 	target := r.Intn(len(evs) + 6) // kill around operation `target` (>= len(evs): inside Close)
 	inside := r.Intn(3) != 0      // inside the operation (after its START), else right after the previous ACK
+	if r.Intn(3) == 0 {
+		// a third of the kills aim inside the operations that touch many keys at once
+		var structural []int
+		for i, e := range evs {
+			switch e["op"] {
+			case "DropIndex", "CreateIndex", "DropCollection", "CreateByQuery", "Delete", "UpdateFunc", "Update":
+				if i > 3 {
+					structural = append(structural, i)
+				}
+			}
+		}
+		if len(structural) > 0 {
+			target, inside = structural[r.Intn(len(structural))], true
+		}
+	}
 	delay := time.Duration(r.Intn(1500)) * time.Microsecond
+	if r.Intn(3) == 0 {
+		delay = time.Duration(r.Intn(20000)) * time.Microsecond // deep inside a long operation
+	}
 	if r.Intn(4) == 0 {
 		delay = 0
 	}
 
-	cmd := exec.Command(os.Args[0], "crashchild", "-dir", dir, "-backend", be, "-seed", strconv.FormatInt(seed, 10))
+	childArgs := []string{"crashchild", "-dir", dir, "-backend", be, "-seed", strconv.FormatInt(seed, 10)}
+	if crashBig {
+		childArgs = append(childArgs, "-big")
+		target, inside = 2+r.Intn(len(evs)-2), true
+		if r.Intn(2) == 0 { // the drops: a single call removes a whole key range
+			target = []int{3, 6, 9}[r.Intn(3)]
+		}
+		delay = time.Duration(r.Intn(9000)) * time.Microsecond
+	}
+	cmd := exec.Command(os.Args[0], childArgs...)
 	stdout, _ := cmd.StdoutPipe()
 	if err := cmd.Start(); err != nil {
 		panic(err)
